@@ -216,7 +216,7 @@ Section Daemon.
   Lemma coupled_exit : forall s c c', Inv sc c -> coupled sc s c -> all_returned (d_ws s) = true -> erounds sc 9 c c' ->
     exists r, wait_result (fst c') = Some r /\ is_some r = any_failed (d_ws s).
   Proof.
-    intros s c c' HI (CL & CC & CW) AR R. pose proof (proj1 (all_returned_nth _) AR) as ARn.
+    clear Hlen Hplain. intros s c c' HI (CL & CC & CW) AR R. pose proof (proj1 (all_returned_nth _) AR) as ARn.
     assert (A : allret sc (fst c)).
     { intros i Li. rewrite <- CL in Li. destruct (nth_error (d_ws s) i) as [w|] eqn:N; [|apply nth_error_None in N; lia].
       specialize (CW i w N). destruct (ARn i w N) as [b M]. rewrite M in CW. destruct CW as (r & G & _). rewrite G. discriminate. }
